@@ -56,9 +56,46 @@ def findVerb (prog : Option VT) : List Tok → Option Found
       else some { pre := [], prog := prog, verb := x, form := f, post := rest }
     | _ => (findVerb prog rest).map (fun r => { r with pre := c :: r.pre })
 
+/-! ### `sepWordREC` of ConstituentFr: `((?:[^<\w…'-]*(?:<[^>]+>)?)*)([\w…'-]+)?(.*)` — the first word of a realization -/
+
+/-- the word class `[\w…'-]` (with `re.I`) on the alphabet of the realizations: ASCII, the Latin-1 and Latin Extended
+    letters, the characters listed in the pattern (`Gen.sepWordExtra`) -/
+def isWordCh (c : Char) : Bool :=
+  c.isAlphanum || c == '_' || sepWordExtra.contains c ||
+    (192 ≤ c.toNat && c.toNat ≤ 591 && c.toNat != 215 && c.toNat != 247) ||
+    c.toNat == 170 || c.toNat == 181 || c.toNat == 186
+
+/-- `[^>]+>` can match right after a `<` -/
+def tagOK : Str → Bool
+  | [] => false
+  | c :: cs => c != '>' && cs.contains '>'
+
+/-- what group 1 leaves: runs of non-word characters other than `<`, and complete tags `<…>`, are skipped -/
+def skipPre : Bool → Str → Str
+  | false, [] => []
+  | false, c :: cs =>
+    if c == '<' then (if tagOK cs then skipPre true cs else c :: cs)
+    else if isWordCh c then c :: cs else skipPre false cs
+  | true, [] => []
+  | true, c :: cs => if c == '>' then skipPre false cs else skipPre true cs
+
+/-- group 2 of `sepWordREC.match(x)`: the first word, `none` when there is none -/
+def firstWord (x : Str) : Option Str :=
+  let w := (skipPre false x).takeWhile isWordCh
+  if w.isEmpty then none else some w
+
+/-- the guard « already elided » of loop 2: `realization.endswith("'")` before commit c4595d2, the first word of the
+    realization ends with an apostrophe since (`Gen.elidedFirstWord`) -/
+def elidedForm (form : Str) : Bool :=
+  if elidedFirstWord then
+    match firstWord form with
+    | some w => endsWith w ['\'']
+    | none => false
+  else endsWith form ['\'']
+
 /-- the test of loop 2 on a pronoun that follows the verb: not elided, case refl/acc/dat or lemma y/en -/
 def isCliticPro (x : ProT) (form : Str) : Bool :=
-  !(endsWith form ['\'']) &&
+  !(elidedForm form) &&
     ((match x.c with | some c => cliticCases.contains c.str | none => false) || x.lemma == yStr || x.lemma == enStr)
 
 /-- loop 2, second part: `(popped clitics, what stays after the verb)` -/
